@@ -166,7 +166,7 @@ CHECKS["C12"] = {
         {"name": "conv", "quick_n": 2000, "thorough_n": 20000, "oracles_only": True, "oracles": ["conv-panic"]},
         {"name": "debug", "quick_n": 800, "thorough_n": 8000, "oracles_only": True, "oracles": ["debug-panic", "process-crash"]},
     ],
-    "explanation": "Partial by nature. Proved over the model: every stage is a total function returning a value or an error and its fuel never runs out — lexer (C12.lex_no_fuel, lex_steps: at most one round per input character, lex_fuel_mono, lex_rule_attempts), parser (parse_no_fuel_partial, parseWith_no_fuel: 4*tokens+1 suffices), unifier (C17.unify_fuel_sufficient), checker (C05.never_fuel), evaluator (C02.progress: depth suffices), VM (C11.verify_sound, compiled_runs_safely: at most the code size). Not expressible in a model: wall-clock budgets, goroutine stack exhaustion, process death. The api stream is the failing-input search for those: random bytes/runes, token-level mutations of valid programs, bracket nests to depth 2000, operator chains, 14 kinds of host values through Eval / Compile+Callable / Debug with a per-input time budget, and growth families timed at increasing depth.",
+    "explanation": "Partial by nature. Proved over the model: every stage is a total function returning a value or an error and its fuel never runs out — lexer (C12.lex_no_fuel, lex_steps: at most one round per input character, lex_fuel_mono, lex_rule_attempts), parser (parse_no_fuel_partial, parseWith_no_fuel: 4*tokens+1 suffices), unifier (C17.unify_fuel_sufficient), checker (C05.never_fuel), evaluator (C02.progress: depth suffices), VM (C11.verify_sound, compiled_runs_safely: at most the code size). Not expressible in a model: wall-clock budgets, goroutine stack exhaustion, process death. The api stream is the failing-input search for those: random bytes/runes, token-level mutations of valid programs, bracket nests to depth 2000, operator chains, 14 kinds of host values through Eval / Compile+Callable / Debug with a per-input time budget, and growth families timed at increasing depth. Containment (third session): the inventory of panic guards of the API layer (which functions of facade.go, conv, ext/sql.go install a deferred recover, and through which helper) is regenerated from the source on every run (Gen.panicGuards) and tied (C12.guards_tie); over a hand-modelled call structure of Eval / Debug / Compile / Callable, every internal stage runs under one of those guards or is one of three stages that are total functions in the model (C12.contained_partial, helpers_recover). parse_fuel_witness: the one table for which the parser does not terminate (a prefix operator whose kind is the end-of-file marker), kernel-evaluated.",
     "assumptions": ["testing, not proof, for promptness and panic containment of the Go facade"],
 }
 
